@@ -114,25 +114,37 @@ SidStep(p) ==
     /\ pc' = [pc EXCEPT ![p] = "conn"]
     /\ UNCHANGED <<remote, nConns, closes, everUp, v2>>
 
-\* the client's side of the GBN handshake completes: the server is listening
+\* The GBN handshake is a rendezvous; either side's call may return first (the
+\* client finishes the exchange first, but its Dial may return after the
+\* server's Accept).  The side that returns second links the two ends.
+\*
+\* the client's Dial returns: the server is (or just was) in its GBN handshake
 \* at the same rendezvous
+HalfOpenSrv(sid) == {i \in 1..nConns : conns[i].owner = Srv /\ conns[i].peer = 0
+                                       /\ conns[i].sid = sid}
 CDialRet(c) ==
     /\ c \in Clients /\ pc[c] = "conn" /\ nConns < MaxConns
-    /\ pc[Srv] = "conn" /\ psid[Srv] = psid[c] /\ psid[c] \in boxes
+    /\ psid[Srv] = psid[c] /\ psid[c] \in boxes
+    /\ \/ /\ pc[Srv] = "conn" /\ HalfOpenSrv(psid[c]) = {}
+          /\ conns' = Append(conns, NewConn(c, psid[c], 0))
+       \/ \E sc \in HalfOpenSrv(psid[c]) :
+             conns' = [Append(conns, NewConn(c, psid[c], sc)) EXCEPT ![sc].peer = nConns + 1]
     /\ nConns' = nConns + 1
-    /\ conns' = Append(conns, NewConn(c, psid[c], 0))
     /\ mc' = [mc EXCEPT ![c] = nConns + 1]
     /\ pc' = [pc EXCEPT ![c] = "idle"]     \* Dial may be called again at any time
     /\ UNCHANGED <<remote, psid, boxes, closes, everUp, v2>>
 
-\* the server's side completes with a client connection that has no server
-\* end yet (it may have been closed meanwhile: the SYNACK was already queued)
+\* the server's Accept returns: with a client connection that has no server
+\* end yet (it may have been closed meanwhile: its SYNACK was already queued),
+\* or (cc = 0) before the client's Dial has returned
 SAcceptRet(cc) ==
     /\ pc[Srv] = "conn" /\ nConns < MaxConns
-    /\ cc \in 1..nConns /\ conns[cc].owner \in Clients /\ conns[cc].peer = 0
-    /\ conns[cc].sid = psid[Srv]
+    /\ \/ /\ cc \in 1..nConns /\ conns[cc].owner \in Clients /\ conns[cc].peer = 0
+          /\ conns[cc].sid = psid[Srv]
+          /\ conns' = [Append(conns, NewConn(Srv, psid[Srv], cc)) EXCEPT ![cc].peer = nConns + 1]
+       \/ /\ cc = 0 /\ \E c \in Clients : pc[c] = "conn" /\ psid[c] = psid[Srv]
+          /\ conns' = Append(conns, NewConn(Srv, psid[Srv], 0))
     /\ nConns' = nConns + 1
-    /\ conns' = [Append(conns, NewConn(Srv, psid[Srv], cc)) EXCEPT ![cc].peer = nConns + 1]
     /\ mc' = [mc EXCEPT ![Srv] = nConns + 1]
     /\ pc' = [pc EXCEPT ![Srv] = "idle"]   \* grpc re-enters Accept at once
     /\ UNCHANGED <<remote, psid, boxes, closes, everUp, v2>>
@@ -166,11 +178,25 @@ HsClientDone(cc) ==
 HsServerDone(sc) ==
     LET cc == conns[sc].peer  c == conns[cc].owner IN
     /\ sc \in 1..nConns /\ conns[sc].owner = Srv /\ IsOpen(sc) /\ conns[sc].noise = "hs"
+    /\ cc # 0
     \* XX: the server is done when it has read act 3; KK: when it has written
     \* act 2 (having read act 1)
     /\ IF conns[sc].pat = "XX" THEN conns[cc].noise = "up" ELSE HsCompatible(cc, sc)
     /\ conns' = [conns EXCEPT ![sc].noise = "up"]
     /\ remote' = IF v2 THEN [remote EXCEPT ![Srv] = c] ELSE remote
+    /\ everUp' = everUp \cup {c}
+    /\ UNCHANGED <<psid, mc, pc, nConns, boxes, closes, v2>>
+
+\* both ends of an XX handshake in one step (trace validation: the two ends
+\* report from different goroutines, the server's line may overtake the
+\* client's although the client finished first)
+HsBothDone(sc) ==
+    LET cc == conns[sc].peer  c == conns[cc].owner IN
+    /\ sc \in 1..nConns /\ conns[sc].owner = Srv /\ IsOpen(sc) /\ conns[sc].noise = "hs"
+    /\ cc # 0
+    /\ conns[sc].pat = "XX" /\ conns[cc].noise = "hs" /\ HsCompatible(cc, sc)
+    /\ conns' = [conns EXCEPT ![sc].noise = "up", ![cc].noise = "up"]
+    /\ remote' = IF v2 THEN [remote EXCEPT ![Srv] = c, ![c] = Srv] ELSE remote
     /\ everUp' = everUp \cup {c}
     /\ UNCHANGED <<psid, mc, pc, nConns, boxes, closes, v2>>
 
@@ -205,14 +231,15 @@ PeerDown(i) ==
     LET j == conns[i].peer IN
     /\ i \in 1..nConns /\ IsOpen(i)
     /\ \/ j # 0 /\ ~IsOpen(j)
-       \/ j = 0 /\ conns[i].owner \in Clients        \* nobody answered
+       \/ j = 0                                     \* nobody answered
     /\ conns' = [conns EXCEPT ![i].st = "closed"]
     /\ UNCHANGED <<remote, psid, mc, pc, nConns, boxes, closes, everUp, v2>>
 
 Next ==
     \/ \E p \in Parties : Call(p) \/ Wake(p) \/ SidStep(p) \/ ConnErr(p)
     \/ \E c \in Clients : CDialRet(c)
-    \/ \E i \in 1..nConns : SAcceptRet(i) \/ HsClientDone(i) \/ HsServerDone(i)
+    \/ \E i \in 0..nConns : SAcceptRet(i)
+    \/ \E i \in 1..nConns : HsClientDone(i) \/ HsServerDone(i)
                             \/ HsFail(i) \/ Close(i) \/ PeerDown(i)
 
 Spec == Init /\ [][Next]_vars
@@ -220,7 +247,8 @@ Spec == Init /\ [][Next]_vars
 Fair ==
     /\ \A p \in Parties : WF_vars(Call(p)) /\ WF_vars(Wake(p)) /\ WF_vars(SidStep(p))
     /\ \A c \in Clients : SF_vars(CDialRet(c))
-    /\ \A i \in 1..MaxConns : WF_vars(SAcceptRet(i)) /\ WF_vars(HsClientDone(i))
+    /\ \A i \in 0..MaxConns : WF_vars(SAcceptRet(i))
+    /\ \A i \in 1..MaxConns : WF_vars(HsClientDone(i))
                               /\ WF_vars(HsServerDone(i)) /\ WF_vars(HsFail(i))
                               /\ WF_vars(PeerDown(i))
 LiveSpec == Spec /\ Fair
